@@ -254,9 +254,8 @@ func judgeTiRun(prop string, res Result, slow bool, lineOK func(string) bool, ta
 	hang := res.Status == "timeout" || res.Status == "budget"
 	switch {
 	case hang:
-		if prop == "C01" {
-			return nil // C02's finding, not C01's: one hang is one finding
-		}
+		// a run that ends in the watchdog also exits with status 1, so it breaks C01's
+		// "exit status 0" as much as C02's "never times out": both checks report it
 		return &Finding{Sig: tag + "hang@" + res.HangAt, What: fmt.Sprintf("virtual watchdog fired after %d ticks while in %s (status %s)", res.Ticks, res.HangAt, res.Status)}
 	case res.Status == "recursion":
 		return &Finding{Sig: tag + "recursion@" + res.HangAt, What: fmt.Sprintf("call depth exceeded the cap in %s after %d ticks", res.HangAt, res.Ticks)}
@@ -389,14 +388,13 @@ func confirmTi(c *Ctx, cs *Case, f *Finding, lineOK func(string) bool, stepIdx i
 	}
 	account := fmt.Sprintf("plain build, real process: wanted %s, saw %v", want, compress(seen))
 	if strings.Contains(want, "timeout") {
-		if c.Prop == "C01" {
-			// for C01 only a real fatal error counts; a real timeout belongs to C02
+		if c.Prop != "C02" {
+			// exit status != 0 either way: a real fatal error or three real timeouts
 			for _, s := range seen {
 				if s == "fatal" || s == "panic" {
 					return true, account
 				}
 			}
-			return false, account + " (a timeout is C02's finding)"
 		}
 		return hits == tries, account
 	}
